@@ -93,9 +93,23 @@ def _elements_of(fn, e, outer):
   return None
 
 
+def _rejecter(w):
+  """The helper that rejects ids that stayed negative (_reject_unresolved_temp_ids today), found
+  by role when renamed or moved: a method of the reference columns' base class (or a function of
+  the module) that raises ValueError and is called from a prepare_new_values."""
+  def role(fi):
+    if not any(isinstance(x, ast.Raise) and isinstance(x.exc, ast.Call) and
+               dotted(x.exc.func) == "ValueError" for x in ast.walk(fi.node)):
+      return False
+    rs = H.referrers(w, fi) if fi.cls is not None else H.name_referrers(w, fi)
+    return any(g is not None and g.name == "prepare_new_values" for (g, ok) in rs)
+  return H.find_by_role(w, "column.BaseReferenceColumn", "_reject_unresolved_temp_ids", role,
+                        "rejection of unresolved temporary ids")
+
+
 def _r1_reject_helper(run, R1, w):
-  rj = w.fn("column.BaseReferenceColumn._reject_unresolved_temp_ids")
-  p = rj.fi.params()[1]
+  rj = w.fn_of(_rejecter(w))
+  p = [x for x in rj.fi.params() if x not in ("self", "cls")][0]
   cfg = rj.cfg
   raises = [n for n in cfg.nodes if n.kind == "raise_stmt"]
   if len(raises) != 1:
@@ -297,9 +311,12 @@ def _r1_one(run, R1, w, fi):
          "summary is given (or there are no values)", g_ok, fi=fi,
          witness=None if g_ok else "a path reaches the delegation without translating although "
                                    "an action summary (and values) were given")
-  rej = {n.id for (n, c, nm) in fn.calls() if nm == "self._reject_unresolved_temp_ids" and
-         len(H.norm(w, fn, c).args) == 1 and isinstance(H.norm(w, fn, c).args[0], ast.Name) and
-         H.whole_of(fn, rd, H.norm(w, fn, c).args[0], n.id,
+  rej_fi = _rejecter(w)
+  def rej_arg(c):
+    a_ = [x for x in H.norm(w, fn, c).args if text(x) != "self"]
+    return a_[0] if len(a_) == 1 and isinstance(a_[0], ast.Name) else None
+  rej = {n.id for (n, c) in H.calls_to(w, fn, rej_fi) if rej_arg(c) is not None and
+         H.whole_of(fn, rd, rej_arg(c), n.id,
                     lambda x, d: isinstance(x, str) and x == resv and d == tdef) is True}
   if not (ok and g_ok):
     return
@@ -577,17 +594,39 @@ def r3_row_ids(run, w):
   # --- the map itself
   up = w.fn("action_summary.ActionSummary.update_new_rows_map")
   tr = w.fn("action_summary.ActionSummary.translate_new_row_ids")
+  accessors = set()       # qualnames of the per-table accessor(s) used (must be one)
+  def per_table(callee):
+    """callee (a method of the summary, or a module-level function) returns the summary's
+    per-table object for its table-id parameter: every return value is built from look-ups /
+    setdefault in a container keyed by that parameter. The accessor is found by this role (its
+    name, _forTable today, is not relied upon)."""
+    ps_ = [p_ for p_ in callee.params() if p_ not in ("self", "cls")]
+    rets = [r.value for r in ast.walk(callee.node) if isinstance(r, ast.Return)]
+    if not ps_ or not rets or any(r is None for r in rets):
+      return False
+    def keyed(e):
+      for y in ast.walk(e):
+        if isinstance(y, ast.Call) and isinstance(y.func, ast.Attribute) and \
+            y.func.attr in ("get", "setdefault") and y.args and \
+            isinstance(y.args[0], ast.Name) and y.args[0].id in ps_:
+          return True
+        if isinstance(y, ast.Subscript) and isinstance(y.slice, ast.Name) and y.slice.id in ps_:
+          return True
+      return False
+    cf = w.fn_of(callee)
+    return all(keyed(H.expand(cf, r, pure_only=False)) for r in rets)
   def map_attr(fn, e):
-    """Attribute name when e denotes self._forTable(<the table_id parameter>).<attr> (written
+    """Attribute name when e denotes <per-table object of the table_id parameter>.<attr> (written
     inline or through locals), else None."""
     p = fn.fi.params()[1]
     x = H.expand(fn, e, pure_only=False)
-    if isinstance(x, ast.Attribute) and isinstance(x.value, ast.Call) and \
-        isinstance(x.value.func, ast.Attribute) and x.value.func.attr == "_forTable" and \
-        text(x.value.func.value) == "self":
-      args = H.norm(w, fn, x.value).args
-      if len(args) == 1 and text(args[0]) == p and not DefUse(fn).rebinders(p):
-        return x.attr
+    if isinstance(x, ast.Attribute) and isinstance(x.value, ast.Call):
+      callee = H.local_callee(w, fn, x.value)
+      if callee is not None and per_table(callee):
+        args = [a_ for a_ in H.norm(w, fn, x.value).args if text(a_) != "self"]
+        if len(args) == 1 and text(args[0]) == p and not DefUse(fn).rebinders(p):
+          accessors.add(callee.qualname)
+          return x.attr
     return None
   # update: pairs (temp, final) positionally, keeps negatives
   ps = up.fi.params()
@@ -673,8 +712,8 @@ def r3_row_ids(run, w):
   run.ob(R3, tr.qualname, "[map.get(r, r) for r in row_ids]", "translation keeps positions, maps "
          "known temporary ids and leaves every other id unchanged", ok, fi=tr.fi)
   run.ob(R3, "action_summary.ActionSummary", "update_new_rows_map / translate_new_row_ids share "
-         "self._forTable(table_id).%s" % a, "ids recorded for a table are "
-         "looked up in the same table's map", a == b, nontrivial=True)
+         "<per-table object of table_id>.%s" % a, "ids recorded for a table are "
+         "looked up in the same table's map", a == b and len(accessors) == 1, nontrivial=True)
 
 
 U = "sandbox/grist/useractions.py"
